@@ -30,10 +30,16 @@ namespace igris
         template <typename R, typename P>
         bool wait(const std::chrono::duration<R, P> &crRelTime) const
         {
+            IGRIS_VERIF_POINT_OBJ("event.twait.lock", this);
             std::unique_lock<std::mutex> _lock(m_mutex);
+            IGRIS_VERIF_POINT_OBJ("event.twait.cv", this);
             if (!m_condition.wait_for(_lock, crRelTime,
                                       [&]() -> bool { return m_bFlag; }))
+            {
+                IGRIS_VERIF_POINT_OBJ("event.twait.unlock", this);
                 return false;
+            }
+            IGRIS_VERIF_POINT_OBJ("event.twait.unlock", this);
             return true;
         }
 
@@ -56,9 +62,11 @@ namespace igris
         inline bool reset()
         {
             bool bWasSignalled;
+            IGRIS_VERIF_POINT_OBJ("event.reset.lock", this);
             m_mutex.lock();
             bWasSignalled = m_bFlag;
             m_bFlag = false;
+            IGRIS_VERIF_POINT_OBJ("event.reset.unlock", this);
             m_mutex.unlock();
             return bWasSignalled;
         }
